@@ -224,10 +224,11 @@ RecOK(r, h) == /\ Len(r.pid) = Len(h.recs) /\ Len(r.x) = Len(r.pid) /\ Len(r.age
                /\ \A i \in 1..Len(r.pid) : /\ r.pid[i] = h.recs[i].pid /\ r.x[i] = h.recs[i].x /\ r.y[i] = h.recs[i].y
                                            /\ r.z[i] = h.recs[i].z /\ r.age[i] = h.recs[i].age /\ r.farm[i] = h.recs[i].farm
 NumberingOK(fs) == LET n == S.out.numrec  base == IF Warm THEN S.warmidx + 1 ELSE 0 IN
-   IF n = 0 THEN Len(fs) = 1 /\ fs[1].idx = -1
+   IF n = 0 THEN Len(fs) = 1 /\ fs[1].idx = (IF Warm THEN S.warmidx + 1 ELSE -1)
    ELSE \A k \in 1..Len(fs) : fs[k].idx = base + k - 1
 SizesOK(fs) == LET n == S.out.numrec IN
-   IF n = 0 THEN Len(fs) = 1
+   IF hist = <<>> THEN \A k \in 1..Len(fs) : Len(fs[k].recs) = 0        \* (a warm start shorter than one output period)
+   ELSE IF n = 0 THEN Len(fs) = 1
    ELSE /\ \A k \in 1..(Len(fs) - 1) : Len(fs[k].recs) = n
         /\ Len(fs) >= 1 /\ Len(fs[Len(fs)].recs) >= 1 /\ Len(fs[Len(fs)].recs) <= n
 \* index into hist of the last record of file k
